@@ -170,7 +170,39 @@ func (env *Env) constVal(c constant.Value, t types.Type) Val {
 	return Val{}
 }
 
+// eval evaluates a contract expression. Values read from the heap carry their
+// type invariant (every Go heap holds well-typed values) as a background fact.
 func (env *Env) eval(e ast.Expr) Val {
+	v := env.eval0(e)
+	switch e.(type) {
+	case *ast.SelectorExpr, *ast.IndexExpr, *ast.StarExpr:
+		if v.Typ != nil && v.T != "" && env.fc.inQuant == 0 && v.Addr == nil {
+			if inv := env.fc.typeInvTry(v.Typ, v.T); inv != "true" && inv != "" {
+				key := "inv:" + v.T
+				if !env.fc.pureDone[key] {
+					env.fc.pureDone[key] = true
+					env.fc.sc.Axiom(inv)
+				}
+			}
+		}
+	}
+	return v
+}
+
+func (fc *fnCtx) typeInvTry(t types.Type, v string) (r string) {
+	defer func() {
+		if e := recover(); e != nil {
+			if _, ok := e.(unsupported); ok {
+				r = ""
+				return
+			}
+			panic(e)
+		}
+	}()
+	return fc.so.typeInv(t, v)
+}
+
+func (env *Env) eval0(e ast.Expr) Val {
 	fc := env.fc
 	switch e := e.(type) {
 	case *ast.ParenExpr:
@@ -216,6 +248,13 @@ func (env *Env) eval(e ast.Expr) Val {
 	case *ast.BinaryExpr:
 		return env.evalBinary(e)
 	case *ast.IndexExpr:
+		if sel, ok := e.X.(*ast.SelectorExpr); ok && sel.Sel.Name == "Typ" {
+			if id, ok := sel.X.(*ast.Ident); ok {
+				if p := env.lookupPkg(id.Name); p != nil && p.Path() == "go/types" {
+					return fc.typesTyp(env.st, env.eval(e.Index), token.NoPos)
+				}
+			}
+		}
 		x := env.eval(e.X)
 		i := env.eval(e.Index)
 		if x.Typ == nil {
@@ -349,11 +388,46 @@ func (env *Env) evalSelector(e *ast.SelectorExpr) Val {
 			}
 		}
 	}
-	x := env.eval(e.X)
+	x := env.evalBase(e.X)
 	if x.Typ == nil {
 		bail("selector on untyped value %s", exprStr(e))
 	}
 	return fc.selectField(env.st, x, e.Sel.Name, env.pkg, false)
+}
+
+// evalBase evaluates the base of a selector; nested struct fields reached
+// through pointers are kept as references instead of being loaded.
+func (env *Env) evalBase(e ast.Expr) Val {
+	switch b := e.(type) {
+	case *ast.ParenExpr:
+		return env.evalBase(b.X)
+	case *ast.SelectorExpr:
+		if id, ok := b.X.(*ast.Ident); ok {
+			if _, isVar := env.vars[id.Name]; !isVar {
+				if _, isLoop := env.loopVars[id.Name]; !isLoop {
+					if p := env.lookupPkg(id.Name); p != nil && (env.pkg == nil || env.pkg.Scope().Lookup(id.Name) == nil) {
+						return env.eval(e)
+					}
+				}
+			}
+		}
+		x := env.evalBase(b.X)
+		if x.Typ == nil {
+			return env.eval(e)
+		}
+		if _, isPtr := x.Typ.Underlying().(*types.Pointer); isPtr {
+			// is the selected field a struct? then keep its address
+			obj, _, _ := types.LookupFieldOrMethod(x.Typ, true, env.pkg, b.Sel.Name)
+			if obj == nil {
+				obj, _ = lookupFieldAnyPkg(x.Typ, b.Sel.Name)
+			}
+			if v, ok := obj.(*types.Var); ok && isStruct(v.Type()) {
+				return env.fc.selectField(env.st, x, b.Sel.Name, env.pkg, true)
+			}
+		}
+		return env.fc.selectField(env.st, x, b.Sel.Name, env.pkg, false)
+	}
+	return env.eval(e)
 }
 
 // selectField evaluates x.name (fields only), following embedded fields and pointers.
@@ -545,6 +619,18 @@ func (env *Env) evalBinary(e *ast.BinaryExpr) Val {
 			return Val{T: bitAndConst(x.T, c), Sort: "Int", Typ: x.Typ}
 		}
 		return Val{T: App("int_and", x.T, y.T), Sort: "Int", Typ: x.Typ}
+	case token.OR:
+		if c, err := strconv.ParseInt(y.T, 10, 64); err == nil && c >= 0 {
+			return Val{T: App("-", App("+", x.T, y.T), bitAndConst(x.T, c)), Sort: "Int", Typ: x.Typ}
+		}
+		return Val{T: App("int_or", x.T, y.T), Sort: "Int", Typ: x.Typ}
+	case token.AND_NOT:
+		if c, err := strconv.ParseInt(y.T, 10, 64); err == nil && c >= 0 {
+			return Val{T: App("-", x.T, bitAndConst(x.T, c)), Sort: "Int", Typ: x.Typ}
+		}
+		return Val{T: App("-", x.T, App("int_and", x.T, y.T)), Sort: "Int", Typ: x.Typ}
+	case token.XOR:
+		return Val{T: App("int_xor", x.T, y.T), Sort: "Int", Typ: x.Typ}
 	}
 	bail("binary operator %s", e.Op)
 	return Val{}
@@ -633,6 +719,11 @@ func (env *Env) evalCall(e *ast.CallExpr) Val {
 				return x
 			}
 			return fc.makeIface(env.st, x, x.Typ, it)
+		case "disjoint":
+			a, b := env.eval(e.Args[0]), env.eval(e.Args[1])
+			return boolVal(Or(Not(Eq(App("sarr", a.T), App("sarr", b.T))), Eq(a.T, "nilS"), Eq(b.T, "nilS")))
+		case "addr":
+			return env.evalLvalue(e.Args[0])
 		case "fresh":
 			x := env.eval(e.Args[0])
 			r := refOf(x)
@@ -716,10 +807,20 @@ func (env *Env) evalCall(e *ast.CallExpr) Val {
 		if x.Typ == nil {
 			bail("method call on untyped value %s", exprStr(e))
 		}
-		obj, _, _ := types.LookupFieldOrMethod(x.Typ, true, env.pkg, sel.Sel.Name)
+		obj, index, _ := types.LookupFieldOrMethod(x.Typ, true, env.pkg, sel.Sel.Name)
 		m, ok := obj.(*types.Func)
 		if !ok {
 			bail("no method %s on %s", sel.Sel.Name, typeKey(x.Typ))
+		}
+		// walk embedded fields to the actual receiver
+		for _, fi := range index[:len(index)-1] {
+			var st *types.Struct
+			if pt, ok := x.Typ.Underlying().(*types.Pointer); ok {
+				st = pt.Elem().Underlying().(*types.Struct)
+			} else {
+				st = x.Typ.Underlying().(*types.Struct)
+			}
+			x = fc.selectField(env.st, x, st.Field(fi).Name(), st.Field(fi).Pkg(), isStruct(st.Field(fi).Type()))
 		}
 		return env.callFunc(m, &x, e.Args)
 	}
@@ -856,14 +957,25 @@ func (env *Env) applySpec(sp *SpecFn, argExprs []ast.Expr) Val {
 	}
 	rt := specEnv.specType(sp.Result)
 	rs := specSort(fc, rt, sp.Result)
-	sym := Sym("spec!" + sp.Name)
-	// heap-reading spec functions are versioned by the heap terms they were applied in
-	if len(sp.Reads) > 0 {
-		tok := ""
-		for _, r := range sp.Reads {
-			tok += "/" + fc.H(env.st, fc.heapByShortName(r))
+	if sp.Def != "" && !rec {
+		// non-recursive specification functions are macros
+		body := specEnv.eval(parseExprOrBail(sp.Def))
+		if body.Sort == "nil" {
+			body = Val{T: nilOfSort(rs), Sort: rs}
 		}
-		sym = Sym("spec!" + sp.Name + "@" + hashStr(tok))
+		if rs == "Iface" && body.Sort == "Ref" && body.Typ != nil {
+			body = fc.makeIface(env.st, body, body.Typ, rt)
+		}
+		if body.Sort != rs {
+			bail("spec %s: body sort %s, want %s", sp.Name, body.Sort, rs)
+		}
+		body.Typ = rt
+		return body
+	}
+	sym := Sym("spec!" + sp.Name)
+	if sp.Def != "" && !sp.NoHeap {
+		// heap-reading recursive spec functions are versioned by the heap state they are applied in
+		sym = Sym(fmt.Sprintf("spec!%s@%d", sp.Name, env.st.ver))
 	}
 	fc.sc.Decl(sym, asorts, rs)
 	app := sym
@@ -871,7 +983,7 @@ func (env *Env) applySpec(sp *SpecFn, argExprs []ast.Expr) Val {
 		app = App(sym, aterms...)
 	}
 	res := Val{T: app, Sort: rs, Typ: rt}
-	if sp.Def != "" && (!rec || env.unfold < fc.g.UnfoldDepth) && fc.inQuant == 0 {
+	if sp.Def != "" && env.unfold < fc.g.UnfoldDepth && fc.inQuant == 0 {
 		key := "spec:" + app
 		if !fc.pureDone[key] {
 			fc.pureDone[key] = true
